@@ -669,6 +669,19 @@ func checkNoSelfAddParseTree(p *Program, r *Report, rule string) {
 					tree := c.Common().Args[2]
 					if ld, ok := tree.(*ssa.UnOp); ok {
 						if fa, ok := ld.X.(*ssa.FieldAddr); ok {
+							tv := fa.X
+							if ex, ok := tv.(*ssa.Extract); ok {
+								if lk, ok := ex.Tuple.(*ssa.Lookup); ok {
+									tv = lk // t, ok := e.derived[name]
+								}
+							}
+							if lk, ok := tv.(*ssa.Lookup); ok {
+								if ml, ok := lk.X.(*ssa.UnOp); ok {
+									if mf, ok := ml.X.(*ssa.FieldAddr); ok && fieldName(mf.X.Type(), mf.Field) == "derived" {
+										fromDerived = true // looked up in the map of derived templates (a sorted walk over its keys)
+									}
+								}
+							}
 							if ex, ok := fa.X.(*ssa.Extract); ok {
 								if nx, ok := ex.Tuple.(*ssa.Next); ok {
 									if rg, ok := nx.Iter.(*ssa.Range); ok {
